@@ -508,9 +508,74 @@ def key_collision_search(ctx, n_arrays):
                  {"which": which, "a": a.tolist(), "b": b.tolist(), "memoised_b_equals_memoised_a": bool(np.allclose(va, vb)), "memoised_b_wrong": wrong})
 
 
+def structured_argument_probe(ctx, n_rounds):
+    """Behavioural soundness of the two array-keyed caches on argument tuples that are RELATED (what an order-normalising,
+    summarising or otherwise 'canonical' key may conflate although the arguments differ as unordered collections): after a
+    call on (a, b) the memoised function is called on a related pair / list and must still return what the undecorated
+    function returns for those arguments.  Families: pointwise min/max of the pair; entries exchanged between the two arrays
+    at some grid points; mass shifted from one array to the other (same pointwise sum); one array doubled; (a, a) vs (b, b);
+    lists with the same set but different multiplicities; rows exchanged between samples."""
+    import numpy as np
+
+    import phyclone.tree.utils as tu
+
+    conv, logS = tu._convolve_two_children, tu.compute_log_S
+    raw_conv, raw_logS = getattr(conv, "__wrapped__", None), getattr(logS, "__wrapped__", None)
+    if raw_conv is None or raw_logS is None:
+        ctx.broken_tie("structured argument probe: no __wrapped__ on the memoised functions")
+        return
+    rng = np.random.default_rng(ctx.rng.randrange(10**9))
+    n = 0
+    for rnd in range(n_rounds):
+        ns, G = int(rng.integers(1, 3)), int(rng.choice([5, 8, 11]))
+        a = np.log(rng.integers(1, 17, size=(ns, G)) / 16.0)
+        b = np.log(rng.integers(1, 17, size=(ns, G)) / 16.0)
+        mask = rng.random((ns, G)) < 0.5
+        fam = {
+            "pointwise-min-max": (np.minimum(a, b), np.maximum(a, b)),
+            "entries-exchanged": (np.where(mask, a, b), np.where(mask, b, a)),
+            "mass-shifted": (a + 0.25, b - 0.25),
+            "swapped-and-shifted": (b + 0.5, a - 0.5),
+            "first-doubled": (a, a),
+            "second-doubled": (b, b),
+        }
+        if ns == 2:
+            fam["rows-exchanged"] = (np.stack([a[0], b[1]]), np.stack([b[0], a[1]]))
+        for name, (a2, b2) in fam.items():
+            if np.array_equal(a2, a) and np.array_equal(b2, b) or np.array_equal(a2, b) and np.array_equal(b2, a):
+                continue
+            for fn, raw, args1, args2, site in ((conv, raw_conv, (a, b), (a2, b2), "conv"),
+                                                (logS, raw_logS, ([a, b],), ([a2, b2],), "logS")):
+                fn.cache_clear(); conv.cache_clear()
+                fn(*[np.array(x) if site == "conv" else [np.array(y) for y in x] for x in args1])
+                got = np.array(fn(*[np.array(x) if site == "conv" else [np.array(y) for y in x] for x in args2]))
+                conv.cache_clear()
+                ref = np.array(raw(*[np.array(x) if site == "conv" else np.array([np.array(y) for y in x], order="C") for x in args2]))
+                n += 1
+                if got.shape != ref.shape or not np.allclose(got, ref, rtol=1e-9, atol=1e-9):
+                    ctx.fail("C14:%s:related-arguments:%s" % (site, name), "after a call on (a, b) the memoised %s returns for the related arguments (%s) a value differing from the undecorated function by %.3g" % (site, name, float(np.max(np.abs(got - ref))) if got.shape == ref.shape else float("nan")),
+                             {"family": name, "a": a.tolist(), "b": b.tolist(), "a2": a2.tolist(), "b2": b2.tolist(), "site": site})
+        # lists: same set of arrays, different multiplicities / an extra copy
+        c = np.log(rng.integers(1, 17, size=(ns, G)) / 16.0)
+        for l1, l2, name in (([a, a, b], [a, b, b], "multiplicities"), ([a, b], [a, b, b], "extra-copy"), ([a, b, c], [a, c, c], "replaced-by-copy")):
+            logS.cache_clear(); conv.cache_clear()
+            logS([np.array(x) for x in l1])
+            got = np.array(logS([np.array(x) for x in l2]))
+            conv.cache_clear()
+            ref = np.array(raw_logS(np.array([np.array(x) for x in l2], order="C")))
+            n += 1
+            if got.shape != ref.shape or not np.allclose(got, ref, rtol=1e-9, atol=1e-9):
+                ctx.fail("C14:logS:related-arguments:%s" % name, "after a call on one children list the memoised compute_log_S returns for a related list (%s) a value differing from the undecorated function" % name,
+                         {"family": name, "a": a.tolist(), "b": b.tolist(), "c": c.tolist()})
+    logS.cache_clear(); conv.cache_clear()
+    ctx.case(key="structured-argument-probe", nontrivial=True, n=n)
+    ctx.count("related_argument_calls", n)
+
+
 def run(ctx):
     coq.check_property_file(ctx)
     key_collision_search(ctx, 150000 if ctx.quick else 600000)
+    structured_argument_probe(ctx, 40 if ctx.quick else 400)
     ctx.rule = (
         "run_phyclone_chain (burn-in 2, 5-8 sweeps, 6-10 particles, concentration update on, subtree updates 0/0.3) on 5-8 simulated data points with every cached entry point "
         "shadowed by memoised-vs-undecorated comparison at each call: proposals {bootstrap, semi-adapted, fully-adapted} x outliers {off, 0.1} x data {k/16 rational grids, "
